@@ -382,3 +382,58 @@ Theorem C07_room_visibility_geometric_shoebox {T} {O : Ops T} {RL : RingLaws T} 
        forall r, In r rs -> ~ blocked r (nthv (rm_centers rm) i) (nthv (rm_centers rm) j)).
 Proof. exact (room_visibility_geometric_shoebox rm m). Qed.
 Print Assumptions C07_room_visibility_geometric_shoebox.
+
+(** (10d) the clauses of [gen_pos] that concern a patch's OWN rectangle are theorems about the
+    centroid the model computes ([np.sum(points, axis=-2) / 4], [Vec3.centroid]): it lies exactly in
+    the plane of its rectangle, strictly inside it, and farther than m from its four edge lines
+    whenever both sides of the rectangle exceed 2 m ... *)
+Theorem C07_rect_own_centroid {T} {O : Ops T} {RL : RingLaws T} {OL : OrderLaws T} {FL : FieldLaws T}
+    {FlL : FloorLaws T} {SL : SqrtLaws T} (m : T) (r : rect) :
+  rect_wf r ->
+  (m + m < tabs (r_ub r - r_ua r))%T -> (m + m < tabs (r_vb r - r_va r))%T ->
+  pt_on m r (centroid (rect_pts r)) /\ in_rect r (centroid (rect_pts r)).
+Proof. exact (rect_own_centroid m r). Qed.
+Print Assumptions C07_rect_own_centroid.
+
+(** ... and centroid i of the composed room IS the centroid of the i-th patch rectangle *)
+Theorem C07_room_center_is_rect_centroid {T} {O : Ops T} {RL : RingLaws T} {OL : OrderLaws T}
+    {FL : FieldLaws T} {FlL : FloorLaws T} {SL : SqrtLaws T} (rm : @room T) (rs : list (@rect T)) (i : nat) :
+  rects_of (rm_patch_surfs rm) rs -> i < rm_np rm ->
+  nthv (rm_centers rm) i = centroid (rect_pts (nth i rs drect)).
+Proof. exact (fun Hrs => room_center_is_rect_centroid rm rs Hrs i). Qed.
+Print Assumptions C07_room_center_is_rect_centroid.
+
+(** (10e) consequences that need NO hypothesis on the other surfaces ([cell_margin m r]: both sides
+    of r exceed 2 m).  A patch never exchanges energy with a patch whose centroid is behind it
+    (behind patch i, or patch i behind patch j): the own surface blocks ... *)
+Theorem C07_room_behind_hidden {T} {O : Ops T} {RL : RingLaws T} {OL : OrderLaws T}
+    {FL : FieldLaws T} {FlL : FloorLaws T} {SL : SqrtLaws T} (rm : @room T) (rs : list (@rect T))
+    (m : T) (i j : nat) :
+  rects_of (rm_patch_surfs rm) rs ->
+  (0 <= rm_eps rm)%T -> (rm_eps rm < 1)%T -> (0 < rm_eta rm)%T -> (rm_eta rm <= m + m)%T ->
+  i < j -> j < rm_np rm ->
+  let ci := nthv (rm_centers rm) i in
+  let cj := nthv (rm_centers rm) j in
+  let ri := nth i rs drect in
+  let rj := nth j rs drect in
+  (cell_margin m ri -> (rm_eta rm < tabs (side_of (rect_surface ri) cj))%T ->
+   (vdot (s_nrm (rect_surface ri)) (vsub cj ci) < 0)%T -> vis_sym (room_scene rm) i j = false) /\
+  (cell_margin m rj -> (rm_eta rm < tabs (side_of (rect_surface rj) ci))%T ->
+   (vdot (s_nrm (rect_surface rj)) (vsub ci cj) < 0)%T -> vis_sym (room_scene rm) i j = false).
+Proof. exact (fun Hrs He He1 Heta Hm => room_behind_hidden rm rs Hrs m He He1 Heta Hm i j). Qed.
+Print Assumptions C07_room_behind_hidden.
+
+(** ... and two patches of the same wall never exchange energy: a centroid in the plane of patch i
+    (off its edge bands) is hidden by the coplanar branch *)
+Theorem C07_room_coplanar_hidden {T} {O : Ops T} {RL : RingLaws T} {OL : OrderLaws T}
+    {FL : FieldLaws T} {FlL : FloorLaws T} {SL : SqrtLaws T} (rm : @room T) (rs : list (@rect T))
+    (m : T) (i j : nat) :
+  rects_of (rm_patch_surfs rm) rs ->
+  (0 <= rm_eps rm)%T -> (rm_eps rm < 1)%T -> (0 < rm_eta rm)%T -> (rm_eta rm <= m + m)%T ->
+  i < j -> j < rm_np rm ->
+  let cj := nthv (rm_centers rm) j in
+  let ri := nth i rs drect in
+  cell_margin m ri -> on_plane (rect_surface ri) cj -> off_bands m ri cj ->
+  vis_sym (room_scene rm) i j = false.
+Proof. exact (fun Hrs He He1 Heta Hm => room_coplanar_hidden rm rs Hrs m He He1 Heta Hm i j). Qed.
+Print Assumptions C07_room_coplanar_hidden.
